@@ -1,14 +1,12 @@
 package main
 
 import (
+	"fmt"
+	"strings"
+
 	"verif/family"
 	"verif/symx"
 )
-
-func init() {
-	checks["C01"] = checkC01
-	checks["C03"] = checkC03
-}
 
 // parserFamily selects the grammar family for a parser property and tier.
 func parserFamily(c *Ctx, kind string) []*family.Grammar {
@@ -32,7 +30,24 @@ func parserFamily(c *Ctx, kind string) []*family.Grammar {
 	for _, g := range family.Sample(family.Dedup(family.Basis(3)), nOutlineSrc, c.Seed+1) {
 		gs = append(gs, family.Outline(g)...)
 	}
-	return family.Dedup(gs)
+	gs = family.Dedup(gs)
+	switch kind {
+	case "actions": // grammars with at least one action
+		gs = filter(gs, func(g *family.Grammar) bool { return g.NAct > 0 })
+	case "choices": // grammars with an ordered choice of >= 3 alternatives or any rule reference
+		gs = filter(gs, func(g *family.Grammar) bool { return g.MaxAlts() >= 3 || len(g.G.Rules) > 1 })
+	}
+	return gs
+}
+
+func filter(gs []*family.Grammar, keep func(*family.Grammar) bool) []*family.Grammar {
+	var out []*family.Grammar
+	for _, g := range gs {
+		if keep(g) {
+			out = append(out, g)
+		}
+	}
+	return out
 }
 
 func parserCfg(c *Ctx) symx.Config {
@@ -49,57 +64,11 @@ func validateEvery(c *Ctx) int {
 	return 4
 }
 
-func maxN(c *Ctx, g *family.Grammar) int {
-	n := 4
-	if !c.Quick() {
-		n = 5
+func maxN(c *Ctx) int {
+	if c.Quick() {
+		return 4
 	}
-	return n
-}
-
-func checkC01(c *Ctx) error {
-	fam := parserFamily(c, "C01")
-	spec := &GramSpec{
-		Variants: []string{"d"},
-		Entries:  []EntrySpec{{Name: "C01", Params: "n, rule int", Body: "hl.C01(G, d.New, n, rule, NSW)"}},
-		Jobs: func(gg *GenGrammar) []*Job {
-			var jobs []*Job
-			for r := range gg.G.G.Rules {
-				for n := 0; n <= maxN(c, gg.G); n++ {
-					jobs = append(jobs, &Job{Entry: "C01", Args: []int{n, r}})
-				}
-			}
-			return jobs
-		},
-		BrokenIsViolation: true,
-		ValidateEveryGrammar: validateEvery(c),
-		Cfg:               parserCfg(c),
-	}
-	c.Bounds["input_length"] = "all lengths 0..N runes, each rune any Unicode scalar value (0..0x10FFFF minus surrogates); N=4 quick, 5 thorough"
-	c.Bounds["entry_rules"] = "every rule of each grammar (first rule via Parse(), others via Parse(rule constant))"
-	c.Assumptions = append(c.Assumptions, stdAssumptions...)
-	return runGrammarProperty(c, fam, spec)
-}
-
-func checkC03(c *Ctx) error {
-	fam := parserFamily(c, "C03")
-	spec := &GramSpec{
-		Variants: []string{"d"},
-		Entries:  []EntrySpec{{Name: "C03", Params: "n, rule int", Body: "hl.C03(G, d.New, n, rule, NSW)"}},
-		Jobs: func(gg *GenGrammar) []*Job {
-			var jobs []*Job
-			for n := 0; n <= maxN(c, gg.G); n++ {
-				jobs = append(jobs, &Job{Entry: "C03", Args: []int{n, 0}})
-			}
-			return jobs
-		},
-		BrokenIsViolation: true,
-		ValidateEveryGrammar: validateEvery(c),
-		Cfg:               parserCfg(c),
-	}
-	c.Bounds["input_length"] = "all lengths 0..N runes over the whole Unicode alphabet; N=4 quick, 5 thorough"
-	c.Assumptions = append(c.Assumptions, stdAssumptions...)
-	return runGrammarProperty(c, fam, spec)
+	return 5
 }
 
 var stdAssumptions = []string{
@@ -110,9 +79,186 @@ var stdAssumptions = []string{
 	"grammars are well-formed by an independent Ford-style analysis (precondition of the property)",
 }
 
+func lenJobs(entry string, maxN int, extra ...int) []*Job {
+	var jobs []*Job
+	for n := 0; n <= maxN; n++ {
+		jobs = append(jobs, &Job{Entry: entry, Args: append([]int{n}, extra...)})
+	}
+	return jobs
+}
+
+func stdBounds(c *Ctx, n int) {
+	c.Bounds["input_length"] = fmt.Sprintf("all lengths 0..%d runes; each rune any Unicode scalar value (0..0x10FFFF minus surrogates), i.e. every Go string whose decoding has that many runes", n)
+	c.Bounds["outside"] = "longer inputs; grammars outside the enumerated family; semantic predicates with side effects"
+	c.Assumptions = append(c.Assumptions, stdAssumptions...)
+}
+
+// variant helper: Go expressions for the constructor list of the variants that built
+func varList(gg *GenGrammar, vns []string, pretty map[string]string) (names, ctors string, ok []string) {
+	var ns, cs []string
+	for _, vn := range vns {
+		if !gg.OK(vn) {
+			continue
+		}
+		ok = append(ok, vn)
+		ns = append(ns, fmt.Sprintf("%q", pretty[vn]))
+		cs = append(cs, vn+".New")
+	}
+	return "[]string{" + strings.Join(ns, ", ") + "}", "[]func() hl.Parser{" + strings.Join(cs, ", ") + "}", ok
+}
+
+var optName = map[string]string{"d": "default", "i": "inline", "s": "switch", "is": "inline-switch", "n": "noast", "ni": "noast-inline", "ns": "noast-switch", "nis": "noast-inline-switch"}
+
 func init() {
+	checks["C01"] = func(c *Ctx) error {
+		N := maxN(c)
+		stdBounds(c, N)
+		c.Bounds["entry_rules"] = "every rule of each grammar (first rule via Parse(), others via Parse(rule constant))"
+		return runGrammarProperty(c, parserFamily(c, ""), &GramSpec{
+			Variants: []string{"d"},
+			Entries: func(gg *GenGrammar) []EntrySpec {
+				return []EntrySpec{{Name: "C01", Params: "n, rule int", Body: "hl.C01(G, d.New, n, rule, NSW)"}}
+			},
+			Jobs: func(gg *GenGrammar) []*Job {
+				var jobs []*Job
+				for r := range gg.G.G.Rules {
+					jobs = append(jobs, lenJobs("C01", N, r)...)
+				}
+				return jobs
+			},
+			BrokenIsViolation: true, ValidateEveryGrammar: validateEvery(c), Cfg: parserCfg(c),
+		})
+	}
+	checks["C03"] = func(c *Ctx) error {
+		N := maxN(c)
+		stdBounds(c, N)
+		return runGrammarProperty(c, parserFamily(c, ""), &GramSpec{
+			Variants: []string{"d"},
+			Entries: func(gg *GenGrammar) []EntrySpec {
+				return []EntrySpec{{Name: "C03", Params: "n, rule int", Body: "hl.C03(G, d.New, n, rule, NSW)"}}
+			},
+			Jobs:              func(gg *GenGrammar) []*Job { return lenJobs("C03", N, 0) },
+			BrokenIsViolation: true, ValidateEveryGrammar: validateEvery(c), Cfg: parserCfg(c),
+		})
+	}
+	checks["C02"] = func(c *Ctx) error {
+		N := maxN(c)
+		stdBounds(c, N)
+		c.Bounds["option_sets"] = "-inline, -switch, -inline -switch, each against the default parser on the same symbolic input"
+		return runGrammarProperty(c, parserFamily(c, ""), &GramSpec{
+			Variants: []string{"d", "i", "s", "is"},
+			Entries: func(gg *GenGrammar) []EntrySpec {
+				if !gg.OK("d") {
+					return nil
+				}
+				names, ctors, ok := varList(gg, []string{"i", "s", "is"}, optName)
+				if len(ok) == 0 {
+					return nil
+				}
+				return []EntrySpec{{Name: "C02", Params: "n int", Body: fmt.Sprintf("hl.C02(G, d.New, %s, %s, n, NSW)", names, ctors)}}
+			},
+			Jobs:              func(gg *GenGrammar) []*Job { return lenJobs("C02", N) },
+			BrokenIsViolation: true, ValidateEveryGrammar: validateEvery(c), Cfg: parserCfg(c),
+		})
+	}
+	checks["C04"] = func(c *Ctx) error {
+		N := maxN(c)
+		stdBounds(c, N)
+		return runGrammarProperty(c, parserFamily(c, "actions"), &GramSpec{
+			Variants: []string{"d"},
+			Entries: func(gg *GenGrammar) []EntrySpec {
+				return []EntrySpec{{Name: "C04", Params: "n int", Body: "hl.C04(G, d.New, n, NSW)"}}
+			},
+			Jobs:              func(gg *GenGrammar) []*Job { return lenJobs("C04", N) },
+			BrokenIsViolation: true, ValidateEveryGrammar: validateEvery(c), Cfg: parserCfg(c),
+		})
+	}
+	checks["C05"] = func(c *Ctx) error {
+		N := maxN(c)
+		stdBounds(c, N)
+		c.Assumptions = append(c.Assumptions, "A-QUOTE: strconv.Quote is modelled as an uninterpreted function of its argument (equal results iff equal arguments)")
+		return runGrammarProperty(c, parserFamily(c, ""), &GramSpec{
+			Variants: []string{"d"},
+			Entries: func(gg *GenGrammar) []EntrySpec {
+				return []EntrySpec{{Name: "C05", Params: "n int", Body: "hl.C05(G, d.New, strconv.Quote, n, NSW)"}}
+			},
+			Jobs:              func(gg *GenGrammar) []*Job { return lenJobs("C05", N) },
+			BrokenIsViolation: true, ValidateEveryGrammar: validateEvery(c), Cfg: parserCfg(c),
+		})
+	}
+	checks["C06"] = func(c *Ctx) error {
+		N := maxN(c)
+		stdBounds(c, N)
+		return runGrammarProperty(c, parserFamily(c, ""), &GramSpec{
+			Variants: []string{"d"},
+			Entries: func(gg *GenGrammar) []EntrySpec {
+				return []EntrySpec{{Name: "C06", Params: "n int", Body: "hl.C06(G, d.New, n, NSW)"}}
+			},
+			Jobs:              func(gg *GenGrammar) []*Job { return lenJobs("C06", N) },
+			BrokenIsViolation: true, ValidateEveryGrammar: validateEvery(c), Cfg: parserCfg(c),
+		})
+	}
+	checks["C07"] = func(c *Ctx) error {
+		N := maxN(c)
+		stdBounds(c, N)
+		c.Bounds["option_sets"] = "-noast, -noast -inline, -noast -switch, -noast -inline -switch, each against the default parser and the reference"
+		return runGrammarProperty(c, parserFamily(c, ""), &GramSpec{
+			Variants: []string{"d", "n", "ni", "ns", "nis"},
+			Entries: func(gg *GenGrammar) []EntrySpec {
+				if !gg.OK("d") {
+					return nil
+				}
+				names, ctors, ok := varList(gg, []string{"n", "ni", "ns", "nis"}, optName)
+				if len(ok) == 0 {
+					return nil
+				}
+				var ex []string
+				for _, vn := range ok {
+					ex = append(ex, fmt.Sprint(vn == "n" || vn == "ni"))
+				}
+				return []EntrySpec{{Name: "C07", Params: "n int", Body: fmt.Sprintf("hl.C07(G, d.New, %s, %s, []bool{%s}, n, NSW)", names, ctors, strings.Join(ex, ", "))}}
+			},
+			Jobs:              func(gg *GenGrammar) []*Job { return lenJobs("C07", N) },
+			BrokenIsViolation: true, ValidateEveryGrammar: validateEvery(c), Cfg: parserCfg(c),
+		})
+	}
+	checks["C11"] = func(c *Ctx) error {
+		N := maxN(c)
+		stdBounds(c, N)
+		c.Assumptions = append(c.Assumptions, "A-QUOTE: strconv.Quote is modelled as an uninterpreted function of its argument",
+			"position convention: the (line, column) of offset p is that of the rune at p: line = 1 + newlines before p, column = 1 + runes since the last newline")
+		return runGrammarProperty(c, parserFamily(c, ""), &GramSpec{
+			Variants: []string{"d"},
+			Entries: func(gg *GenGrammar) []EntrySpec {
+				return []EntrySpec{{Name: "C11", Params: "n int", Body: "hl.C11(G, d.New, strconv.Quote, n, NSW)"}}
+			},
+			Jobs:              func(gg *GenGrammar) []*Job { return lenJobs("C11", N) },
+			BrokenIsViolation: true, ValidateEveryGrammar: validateEvery(c), Cfg: parserCfg(c),
+		})
+	}
+	checks["C13"] = func(c *Ctx) error {
+		N := maxN(c)
+		stdBounds(c, N)
+		all := []string{"d", "i", "s", "is", "n", "ni", "ns", "nis"}
+		return runGrammarProperty(c, parserFamily(c, ""), &GramSpec{
+			Variants: all,
+			Entries: func(gg *GenGrammar) []EntrySpec {
+				names, ctors, ok := varList(gg, all, optName)
+				if len(ok) == 0 {
+					return nil
+				}
+				var ast []string
+				for _, vn := range ok {
+					ast = append(ast, fmt.Sprint(!variants[vn].NoAST))
+				}
+				return []EntrySpec{{Name: "C13", Params: "n int", Body: fmt.Sprintf("hl.C13(G, %s, %s, []bool{%s}, n, NSW)", names, ctors, strings.Join(ast, ", "))}}
+			},
+			Jobs:              func(gg *GenGrammar) []*Job { return lenJobs("C13", N) },
+			BrokenIsViolation: false, ValidateEveryGrammar: validateEvery(c), Cfg: parserCfg(c),
+		})
+	}
 	checks["FAMILY"] = func(c *Ctx) error {
-		for i, g := range parserFamily(c, "C01") {
+		for i, g := range parserFamily(c, "") {
 			println(i, g.Tag, g.Hash())
 			print(g.PegText("d", false)[61:])
 		}
